@@ -34,8 +34,7 @@ PROFILES: dict[str, dict[str, Any]] = {
 
 # level claimed per property (kept in step with tools/gen_manifest.py): "proof" once the property's
 # theorems over the kernel model are in lean/AnyioModel/Props/Cxx.lean
-LEVELS = {p: "proof" for p in ("C01", "C02", "C04", "C05", "C06", "C07")}
-LEVELS.update(C03="translation_validation")
+LEVELS = {p: "proof" for p in ("C01", "C02", "C03", "C04", "C05", "C06", "C07")}
 
 RULES = {
     "C01": "child spawned and group exited",
